@@ -9,6 +9,7 @@ import (
 	"os"
 	"path/filepath"
 	"strings"
+	"sync"
 	"time"
 
 	"verif/internal/kit"
@@ -92,7 +93,7 @@ type c06case struct {
 
 func main() {
 	rep := kit.NewReport("C06", "exploration",
-		"site sets of <=3 hosts (third site: 3 settings in quick, all 7 in thorough) from {a.test, b.a.test, *.test, *.a.test, catch-all} x 7 per-site tls settings (version ranges, one cipher, client-certificate policies) x 7 SNI names x 4 client version ranges x client certificate yes/no, real crypto/tls handshakes over in-memory pipes against Server.TLSConfig, then a request with every site's name as Host header through Server.ServeHTTP; plus listener groups mixing TLS with plaintext sites and same-name sites with different settings (must be rejected); distinct_nontrivial = outcome classes")
+		"site sets of <=3 hosts (third site: 3 settings in quick, all 7 in thorough) from {a.test, b.a.test, *.test, *.a.test, catch-all} x 7 per-site tls settings (version ranges, one cipher, client-certificate policies) x 7 SNI names x 4 client version ranges x client certificate yes/no, real crypto/tls handshakes over in-memory pipes against Server.TLSConfig, then a request with every site's name as Host header through Server.ServeHTTP; plus session tickets obtained under one site offered to another (4x4 client-certificate policies x TLS 1.2/1.3 x 3 client certificates x both orders), and listener groups mixing TLS with plaintext sites and same-name sites with different settings (must be rejected); distinct_nontrivial = outcome classes")
 	kit.Init()
 	kit.Log.Off.Store(true)
 	dir := kit.TempDir("c06")
@@ -359,6 +360,7 @@ func main() {
 		}
 		return true
 	})
+	resumption(rep, dir, ca, caFile, clientPair, certs)
 	// invalid listener groups: every sequence of 2..3 sites on one port with at least one TLS and at least one
 	// plaintext site (written `tls off` or with the http:// scheme), in every order
 	type badCf struct{ name, cf string }
@@ -432,4 +434,151 @@ func min16(a, b uint16) uint16 {
 		return a
 	}
 	return b
+}
+
+// oneSlot is a client session cache that hands the last ticket it was given to every connection, whatever its name.
+type oneSlot struct {
+	mu sync.Mutex
+	s  *tls.ClientSessionState
+}
+
+func (o *oneSlot) Get(string) (*tls.ClientSessionState, bool) {
+	o.mu.Lock()
+	defer o.mu.Unlock()
+	return o.s, o.s != nil
+}
+func (o *oneSlot) Put(_ string, s *tls.ClientSessionState) {
+	o.mu.Lock()
+	if s != nil {
+		o.s = s
+	}
+	o.mu.Unlock()
+}
+
+// resumption: a client completes a handshake under the name of one site and then offers the session ticket it was given
+// to another site of the listener. Whether the second handshake is a resumption or not, it is governed by the second
+// site's client-certificate policy: it succeeds only if a fresh handshake under that name with the same certificate would.
+func resumption(rep *kit.Report, dir string, ca *kit.CA, caFile string, clientPair tls.Certificate, certs map[string][2]string) {
+	ca2 := kit.NewCA("verif CA 2")
+	ca2File := filepath.Join(dir, "ca2.pem")
+	os.WriteFile(ca2File, ca2.CertPEM, 0o644)
+	_, _, pair2 := ca2.Leaf(998, "client2", nil, true)
+	sock := filepath.Join(dir, "resumption.sock")
+	ln, err := net.Listen("unix", sock)
+	if err != nil {
+		rep.Broken("resumption: listen: %v", err)
+	}
+	defer ln.Close()
+	policies := []struct{ name, lines string }{{"none", ""}, {"verify-ca1", "clients " + caFile}, {"verify-ca2", "clients " + ca2File}, {"request", "clients request"}}
+	// would a fresh handshake with this certificate be accepted under this policy?
+	fresh := func(policy string, cert string) bool {
+		switch policy {
+		case "verify-ca1":
+			return cert == "ca1"
+		case "verify-ca2":
+			return cert == "ca2"
+		}
+		return true
+	}
+	for _, pa := range policies {
+		for _, pb := range policies {
+			site := func(host, lines, idx string) string {
+				out := fmt.Sprintf("%s:8443 {\n\ttls %s %s", host, certs[host][0], certs[host][1])
+				if lines != "" {
+					out += " {\n\t\t" + lines + "\n\t}"
+				}
+				return out + "\n\theader / X-Site " + idx + "\n\tstatus 204 /\n}\n"
+			}
+			cf := site("a.test", pa.lines, "s0") + site("b.a.test", pb.lines, "s1")
+			l, err := kit.Load(cf, filepath.Join(dir, "Casketfile"))
+			if err != nil {
+				rep.Broken("resumption: load: %v\n%s", err, cf)
+			}
+			srv := l.Server("8443")
+			for _, ver := range []uint16{tls.VersionTLS12, tls.VersionTLS13} {
+				for _, certName := range []string{"ca1", "ca2", "none"} {
+					for _, order := range [][2]string{{"a.test", "b.a.test"}, {"b.a.test", "a.test"}} {
+						cache := &oneSlot{}
+						polOf := map[string]string{"a.test": pa.name, "b.a.test": pb.name}
+						lastErr := ""
+						dial := func(sni string) (ok bool, resumed bool) {
+							ccfg := &tls.Config{ServerName: sni, InsecureSkipVerify: true, MinVersion: ver, MaxVersion: ver, ClientSessionCache: cache,
+								GetClientCertificate: func(*tls.CertificateRequestInfo) (*tls.Certificate, error) {
+									switch certName {
+									case "ca1":
+										return &clientPair, nil
+									case "ca2":
+										return &pair2, nil
+									}
+									return &tls.Certificate{}, nil
+								}}
+							// (a socket pair, not net.Pipe: when a TLS 1.3 server declines a ticket both sides write at once, which an
+							// unbuffered pipe cannot carry)
+							c1, err := net.Dial("unix", sock)
+							if err != nil {
+								rep.Broken("resumption: dial: %v", err)
+							}
+							c2, err := ln.Accept()
+							if err != nil {
+								rep.Broken("resumption: accept: %v", err)
+							}
+							sconn := tls.Server(c2, srv.Server.TLSConfig)
+							errc := make(chan error, 1)
+							go func() {
+								sconn.SetDeadline(time.Now().Add(20 * time.Second))
+								err := sconn.Handshake()
+								if err == nil {
+									_, err = sconn.Write([]byte("k")) // (after the session tickets of TLS 1.3)
+								}
+								if err != nil {
+									c2.Close()
+								}
+								errc <- err
+							}()
+							cconn := tls.Client(c1, ccfg)
+							cconn.SetDeadline(time.Now().Add(20 * time.Second))
+							cerr := cconn.Handshake()
+							if cerr == nil {
+								_, cerr = cconn.Read(make([]byte, 1))
+							}
+							if cerr != nil {
+								c1.Close()
+							}
+							serr := <-errc
+							rep.Eval(1)
+							ok = cerr == nil && serr == nil
+							lastErr = fmt.Sprintf("client: %v; server: %v", cerr, serr)
+							if ok {
+								resumed = sconn.ConnectionState().DidResume
+							}
+							c1.Close()
+							c2.Close()
+							return
+						}
+						first, second := order[0], order[1]
+						ok1, _ := dial(first)
+						if ok1 != fresh(polOf[first], certName) {
+							rep.Violation("C06/resumption/first-handshake", fmt.Sprintf("handshake under %s (policy %s) with certificate %s: ok=%v", first, polOf[first], certName, ok1), c06case{Casketfile: cf, SNI: first})
+							continue
+						}
+						if !ok1 {
+							rep.Class("resumption/first-handshake-refused")
+							continue
+						}
+						ok2, resumed := dial(second)
+						want := fresh(polOf[second], certName)
+						if ok2 != want {
+							kind := "C06/resumption/ticket-of-another-site-bypasses-the-client-certificate-policy"
+							if !ok2 {
+								kind = "C06/resumption/handshake-refused-although-the-policy-allows-it"
+							}
+							rep.Violation(kind, fmt.Sprintf("TLS %x, client certificate %s: after a handshake under %s (policy %s) the ticket was offered under %s (policy %s): ok=%v resumed=%v, a fresh handshake gives ok=%v (%s)", ver, certName, first, polOf[first], second, polOf[second], ok2, resumed, want, lastErr), c06case{cf, second, fmt.Sprintf("%x", ver), certName != "none", "", fmt.Sprintf("ok=%v resumed=%v", ok2, resumed), fmt.Sprintf("ok=%v", want)})
+						}
+						rep.Class(fmt.Sprintf("resumption/second-handshake/resumed=%v/ok=%v", resumed, ok2))
+					}
+				}
+			}
+			l.Close()
+		}
+	}
 }
